@@ -64,6 +64,11 @@ pub struct UdpClient {
     /// as UDP allows) and the real reply three seconds later, which must arrive
     #[serde(default)]
     pub burst: usize,
+    /// the target answers this client's *last* request and then goes on sending, unasked, this
+    /// many more datagrams three seconds apart while the client only listens (longer than the
+    /// 10 s after which an idle flow is pruned): a flow that carries replies is not idle
+    #[serde(default)]
+    pub stream_n: usize,
 }
 #[derive(Serialize, Deserialize, Clone, Debug)]
 pub struct C01Plan {
@@ -102,6 +107,7 @@ struct ConnRes {
 }
 #[derive(Default, Debug, Clone)]
 struct UdpRes {
+    streamed: usize,
     fillers: usize,
     sent: usize,
     replies_ok: usize,
@@ -526,6 +532,13 @@ async fn udp_client(ci: usize, c: UdpClient, res: Rc<RefCell<Vec<UdpRes>>>, faul
     let mut buf = vec![0u8; 70_000];
     for (k, n) in c.sizes.iter().enumerate() {
         let mut payload = udp_payload(ci, k, *n);
+        let streaming = c.stream_n > 0 && c.burst == 0 && k + 1 == c.sizes.len() && !faulty;
+        if streaming {
+            let mut p = b"STREAM".to_vec();
+            p.push(c.stream_n.min(12) as u8);
+            p.extend(&payload);
+            payload = p;
+        }
         if c.burst > 0 && !c.via_socks {
             let mut p = b"BURST".to_vec();
             p.extend((c.burst.min(60_000) as u16).to_be_bytes());
@@ -621,6 +634,29 @@ async fn udp_client(ci: usize, c: UdpClient, res: Rc<RefCell<Vec<UdpRes>>>, faul
                 }
             }
         }
+        if streaming {
+            // the unasked follow-ups: "rs" + target + ":" + j + ":" + the request's payload, one every 3 s
+            for j in 0..c.stream_n.min(12) {
+                let mut want = format!("rs{}:{j}:", tgt_of(k)).into_bytes();
+                want.extend(&payload);
+                match tokio::time::timeout(Duration::from_secs(3 + 5), sock.recv_from(&mut buf)).await {
+                    Ok(Ok((len, _))) => {
+                        let got = &buf[..len];
+                        let body: &[u8] = if c.via_socks && got.len() >= 10 && got[3] == 1 { &got[10..] } else if c.via_socks && got.len() >= 22 && got[3] == 4 { &got[22..] } else { got };
+                        if body == &want[..] {
+                            res.borrow_mut()[ci].streamed += 1;
+                        } else {
+                            res.borrow_mut()[ci].problems.push(format!("exchange {k}: follow-up {j} of the target arrived modified or out of order ({} bytes, {} expected)", body.len(), want.len()));
+                            break;
+                        }
+                    }
+                    _ => {
+                        res.borrow_mut()[ci].problems.push(format!("exchange {k}: no reply: follow-up {j} of the target (sent {} s after the client's last datagram, 3 s after the previous one) never reached the client", 3 * (j + 1)));
+                        break;
+                    }
+                }
+            }
+        }
         tokio::time::sleep(ms(c.gap_ms)).await;
     }
     res.borrow_mut()[ci].done = true;
@@ -682,6 +718,20 @@ pub fn run(plan: &C01Plan, sched: &Sched) -> Outcome {
                             let Ok((n, from)) = sock.recv_from(&mut b).await else { break };
                             let mut r = format!("re{t}:").into_bytes();
                             r.extend(&b[..n]);
+                            if n >= 7 && b[..n].starts_with(b"STREAM") {
+                                // the answer now, then unasked follow-ups every three seconds
+                                sock.send_to(&r, from).await.ok();
+                                let (s2, cnt, req) = (sock.clone(), b[6] as usize, b[..n].to_vec());
+                                tokio::task::spawn_local(async move {
+                                    for j in 0..cnt {
+                                        tokio::time::sleep(Duration::from_secs(3)).await;
+                                        let mut f = format!("rs{t}:{j}:").into_bytes();
+                                        f.extend(&req);
+                                        s2.send_to(&f, from).await.ok();
+                                    }
+                                });
+                                continue;
+                            }
                             if n >= 7 && b[..n].starts_with(b"BURST") {
                                 // a burst of fillers at once, the real reply three seconds later
                                 for k in 0..u16::from_be_bytes([b[5], b[6]]) {
@@ -932,6 +982,9 @@ pub fn run(plan: &C01Plan, sched: &Sched) -> Outcome {
     for (ci, c) in plan.udp.iter().enumerate() {
         let r = &ures[ci];
         let desc = format!("UDP client {ci} ({}, target {}, payload sizes {:?}{}): sent {} replies ok {} lost {}", if c.via_socks { "SOCKS5 UDP ASSOCIATE" } else { "UDP remote" }, c.target, c.sizes, if c.burst > 0 { format!(", each request answered by {} fillers at once ({} got through) and the reply 3 s later", c.burst, r.fillers) } else { String::new() }, r.sent, r.replies_ok, r.lost);
+        if c.stream_n >= 4 && r.streamed == c.stream_n.min(12) {
+            o.probe("udp-target-streams-longer-than-the-prune-timeout", 1);
+        }
         if c.burst > 64 && r.replies_ok > 0 {
             o.probe("udp-reply-after-a-burst-beyond-the-server-queue", 1);
         }
